@@ -295,12 +295,12 @@ def main():
                 files=["sopht/numeric/immersed_boundary_ops/VirtualBoundaryForcing.py", "sopht/simulator/immersed_body/immersed_body_flow_interaction.py"])
     chk.maybe_replay()
     sopht_modules()
-    maxlen = 2 if chk.quick else 4
+    maxlen = 3 if chk.quick else 5
     for dim in (2, 3):
         L = maxlen if dim == 2 else min(maxlen, 3)
         for n in range(1, L + 1):
             for seq in itertools.product(OPS, repeat=n):
-                if dim == 3 and n == 3 and not ("eval" in seq and "step" in seq):
+                if dim == 3 and n == 3 and chk.quick and not (("eval" in seq and "step" in seq) or seq[-1] == "bodyforces"):
                     continue
                 for reset in ((False, True) if n <= 2 else (False,)):
                     chk.add(history, dim=dim, seq=list(seq), reset=reset)
@@ -308,7 +308,7 @@ def main():
         for order in ("AB", "BA"):
             for rs in (False, True):
                 chk.add(two_bodies, dim=dim, order=order, reset_second=rs)
-    chk.bounds = [f"all operation sequences of length <= {maxlen} (2D) / <= {min(maxlen, 3)} (3D, length-3 restricted to those containing eval and step) over {OPS}, reset mode on/off for length <= 2",
+    chk.bounds = [f"all operation sequences of length <= {maxlen} (2D) / <= {min(maxlen, 3)} (3D; quick: length-3 restricted to those containing eval and step or ending in a body-force evaluation) over {OPS}, reset mode on/off for length <= 2",
                   "initial state arbitrary symbolic (X, V, F, clock, Eulerian forcing, scratch arrays), dt_i, k, c, flow field, body velocities symbolic; 2 markers at enumerated (off-centre) positions, 2 layouts",
                   "two bodies x call orders x reset on the second body"]
     chk.outside = ["histories longer than the bound (covered by the inductive step: every sequence starts from an arbitrary state)", "symbolic marker offsets (C06/C07)", "rounding"]
